@@ -2,19 +2,30 @@
     Statements only (closed by [exact]); proofs in proofs/FrontEndFacts.v, about model/FrontEnd.v
     (variant [fe_simple] = examples/simple.rs and the etc/correctness copies; [fe_fuzz] = the
     fuzz-target / integration-test copies with the special literals and the empty-input rule).
-    The lexer theorems are unconditional (every byte string).  VALUE: [front_end_value] - for every byte
+    The lexer theorems are unconditional (every byte string).  VALUE: [C19_final] (no premise; [front_end_value] is the version with the intermediate premise) - for every byte
     string of at most 2^28 bytes the front end returns the pattern of +- RN (value of the literal as
     written: int.frac x 10^e with e the saturated exponent) and exactly the unconsumed suffix, in all
-    eight configurations, both formats and build modes (premise [deep_ok] as in props/C01.v, vacuous
-    for compact builds).  It composes [lex_decompose], [lex_establishes_preconditions_len],
+    eight configurations, both formats and build modes.  It composes [lex_decompose], [lex_establishes_preconditions_len],
     [trim_preserves_value] with [parse_float_correct]. *)
 
 From Coq Require Import ZArith QArith List Bool.
 From ML Require Import base.RustSem model.Fmt model.Num model.FloatOps model.Number model.Top model.FrontEnd
-  spec.Decimal gen.Consts gen.Tables gen.BTables gen.PowDump proofs.FrontEndFacts proofs.EndToEnd7 proofs.EndToEnd8.
+  spec.Decimal gen.Consts gen.Tables gen.BTables gen.PowDump proofs.FrontEndFacts proofs.EndToEnd7 proofs.EndToEnd8 proofs.Final.
 Import ListNotations.
 
 Open Scope Z_scope.
+
+Theorem C19_C19_final :
+  forall (c : config) (f : format) (b : build) (s : list Z),
+         In c ALL_CONFIGS ->
+         f = F32 \/ f = F64 ->
+         zlen s <= 2 ^ 28 ->
+         let x := lex s in
+         fe_simple c TABLES BTABLES LIMITS f b s =
+         Ok
+           (let v := Round.RN f (dec_value (lx_int x) (lx_frac x) (lx_exp x)) in
+            if lx_pos x then v else f_neg f v, lx_rest x).
+Proof. exact C19_final. Qed.
 
 Theorem C19_front_end_value :
   forall (c : config) (f : format) (b : build) (s : list Z),
@@ -210,6 +221,7 @@ Theorem C19_fe_simple_main :
 Proof. exact fe_simple_main. Qed.
 
 
+Print Assumptions C19_C19_final.
 Print Assumptions C19_front_end_value.
 Print Assumptions C19_consume_digits_spec.
 Print Assumptions C19_parse_sign_spec.
